@@ -154,6 +154,11 @@ func (scanner *uniqueIndexScanner) Next() {
 
 		scanner.current = cursor.Current()
 		cursor.Next()
+		if scanner.current == nil {
+			// an element without a key (a null link inside a dotted set symbol) is not a row;
+			// a nil current would also read as the end of the scan
+			continue
+		}
 		if scanner.store.IsChildStore() && !scanner.store.IsEntityPresent(rowCursor.Tx(), string(scanner.current)) && !scanner.store.IsExtended() {
 			continue
 		}
@@ -181,6 +186,11 @@ func (scanner *uniqueIndexScanner) nextUnpaged() {
 
 		scanner.current = cursor.Current()
 		cursor.Next()
+		if scanner.current == nil {
+			// an element without a key (a null link inside a dotted set symbol) is not a row;
+			// a nil current would also read as the end of the scan
+			continue
+		}
 		if scanner.store.IsChildStore() && !scanner.store.IsEntityPresent(rowCursor.Tx(), string(scanner.current)) && !scanner.store.IsExtended() {
 			continue
 		}
